@@ -161,7 +161,7 @@ def generate(prop, rng, tier):
         elif r < 0.955:
             ops.append({"op": "sibling", "start": rng.randint(0, 6)})
         elif r < 0.965:
-            ops.append({"op": "failed_refit", "pos": rng.randint(1, 6)})
+            ops.append({"op": "failed_refit", "pos": rng.randint(1, 6), "how": rng.choice(["nan", "short"])})
         elif r < 0.98 and minstretch == 1:
             ops.append({"op": "unpaired", "where": rng.choice(["inside", "overlap", "after"]),
                         "off": rng.randint(0, 9), "len": rng.randint(2, 8),
@@ -455,8 +455,18 @@ def execute(prop, scen):
                 # a second fit that raises inside (a missing value the trend regressor rejects):
                 # a transformer that still reports is_fitted must still answer
                 from sktime.exceptions import NotFittedError
-                bad = y.iloc[:n_fit].copy()
-                bad.iloc[min(op["pos"], n_fit - 1)] = np.nan
+                kind_of_failure = op.get("how", "nan")
+                if kind_of_failure == "short":
+                    bad = y.iloc[3:6].copy()          # far too short (and starting elsewhere)
+                else:
+                    bad = y.iloc[2:2 + n_fit].copy()
+                    bad.iloc[min(op["pos"], n_fit - 1)] = np.nan
+                probe_z = y.iloc[1:1 + max(minlen_rt, min(8, n_fit - 1))]
+                try:
+                    with peers.paused():
+                        before_ = t.transform(probe_z.copy())
+                except Exception:
+                    before_ = None
                 raised = False
                 try:
                     with peers.paused():
@@ -468,14 +478,22 @@ def execute(prop, scen):
                     res.fault("fit_raises_midway")
                     try:
                         with peers.paused():
-                            t.transform(y.iloc[1:1 + max(minlen_rt, min(8, n_fit - 1))].copy())
+                            after_ = t.transform(probe_z.copy())
                     except NotFittedError as e:
                         v("op_raised", "after a second fit that raised the transformer reports "
                           "is_fitted True but transform raises NotFittedError (%s)" % str(e)[:80],
                           op="failed_refit", exc="NotFittedError")
                         break
                     except Exception:
-                        pass
+                        after_ = None
+                    # still claiming to be fitted: then on the series of its (only successful)
+                    # fit, not on a mixture of that fit and the one that failed
+                    if before_ is not None and after_ is not None and not _same(before_, after_):
+                        v("stale_state_after_refit", "a second fit raised and the transformer still "
+                          "reports is_fitted, but transform of a fixed stretch changed from %s to %s: "
+                          "part of the failed fit was kept" % (C.fmt(before_), C.fmt(after_)),
+                          what="failed_refit")
+                        break
                 # the history continues on a properly fitted pair
                 if both("fit", lambda tr, yy: tr.fit(yy.iloc[:n_fit])) is None:
                     break
